@@ -458,6 +458,12 @@ def r6(ctx: Ctx) -> None:
             tt = strip_ver(t)
             if tt[0] == "comp" and len(tt[3]) == 1 and key(tt[3][0][1]) == "markets" and len(tt[3][0][2]) == 1 and _access_test(tt[3][0][2][0], True, ("bound", tt[3][0][0][0])) and tt[2] == ("bound", tt[3][0][0][0]):
                 ok_f = True
+            # ... or the first components of pairs (market, weight) that were built for the accessible markets only
+            if tt[0] == "comp" and len(tt[3]) == 1 and len(tt[3][0][0]) == 2 and not tt[3][0][2] and tt[2] == ("bound", tt[3][0][0][0]):
+                inner = strip_ver(tt[3][0][1])
+                if inner[0] == "comp" and len(inner[3]) == 1 and key(inner[3][0][1]) == "markets" and len(inner[3][0][2]) == 1 and len(inner[3][0][0]) == 1 \
+                        and _access_test(inner[3][0][2][0], True, ("bound", inner[3][0][0][0])) and inner[2][0] == "tuple" and len(inner[2][1]) == 2 and inner[2][1][0] == ("bound", inner[3][0][0][0]):
+                    ok_f = True
         ctx.check(okc and ok_f, f, f.node, "the market is drawn from the accessible markets only", "self.get_prng().choices([m for m in markets if accessible(m)], weights)[0]", short(m)[:160])
     ctx.require(n >= 1, f"{q}: no returning path")
 
